@@ -928,8 +928,18 @@ std::vector<double> Minimization::minimize(std::vector<std::vector<double>>& pp,
 				inhi = i;
 		}
 		double rtol = 2.0 * fabs(y[ihi] - y[ilo]) / (fabs(y[ihi]) + fabs(y[ilo]) + TINY);
-		// Compute the fractional range from highest to lowest and return if satisfactory.
-		if(rtol < ftol)
+		// Compute the fractional range from highest to lowest and return if satisfactory ...
+		// ... or if the simplex has shrunk to the resolution of the coordinates of its best vertex: no reflection, contraction or shrink step can resolve anything below that, and the fractional range of a minimum value 0 cannot fall below ftol once the vertices are a few roundings apart.
+		const double resolution = 4.0 * ndim * std::numeric_limits<double>::epsilon();
+		bool collapsed			= true;
+		for(int i = 0; i < mpts && collapsed; i++)
+			for(int j = 0; j < ndim; j++)
+				if(std::fabs(current_simplex[i][j] - current_simplex[ilo][j]) > resolution * std::fabs(current_simplex[ilo][j]))
+				{
+					collapsed = false;
+					break;
+				}
+		if(rtol < ftol || collapsed)
 		{
 			std::swap(y[0], y[ilo]);
 			for(int i = 0; i < ndim; i++)
